@@ -406,16 +406,24 @@ class Driver:
         name = {'bfs': 'Bfs', 'dfs': 'Dfs', 'pfs': 'Pfs'}[alg]
         ap = self.algo_path(name)
         s = self.node_call(alg, [root])
-        if alg == 'pfs':
-            s = ex.call(f"{ap}::{spec.get('prio', 'min')}", [s])
-        if spec.get('target') is not None:
-            s = ex.call(f'{ap}::target', [s, Ref(Cell(self.keys[spec['target']]))])
-        if spec.get('transpose'):
-            s = ex.call(f'{ap}::transpose', [s])
         log = []
         clo = self.make_closure(spec, log)
-        if clo is not None:
-            s = ex.call(f"{ap}::{'filter' if spec['method'] == 'filter' else 'for_each'}", [s, clo])
+        # builder calls in the order the scenario asks for (default: priority, target, transpose, closure)
+        for step in spec.get('order') or ('prio', 'target', 'transpose', 'method'):
+            if step == 'prio':
+                if alg == 'pfs':
+                    s = ex.call(f"{ap}::{spec.get('prio', 'min')}", [s])
+            elif step == 'target':
+                if spec.get('target') is not None:
+                    s = ex.call(f'{ap}::target', [s, Ref(Cell(self.keys[spec['target']]))])
+            elif step == 'transpose':
+                if spec.get('transpose'):
+                    s = ex.call(f'{ap}::transpose', [s])
+            elif step == 'method':
+                if clo is not None:
+                    s = ex.call(f"{ap}::{'filter' if spec['method'] == 'filter' else 'for_each'}", [s, clo])
+            else:
+                raise ValueError(step)
         sc = Cell(s)
         mode = spec['mode']
         meth = {'search': 'search', 'path': 'search_path', 'cycle': 'search_cycle'}[mode]
@@ -610,10 +618,18 @@ class Driver:
     def deserialize_graph(self, doc):
         """doc: {'nodes': list | None | 'err', 'edges': list | None | 'err'} -> Result<Graph>"""
         els = []
+        ann = doc.get('announce') or {}
+
+        def lst(name):
+            if doc[name] == 'err':
+                return 'err'
+            rows = [[self.val(x) for x in row] for row in doc[name]]
+            # a length-prefixed format hands the announced length to size_hint(): untrusted input may announce anything
+            return {'rows': rows, 'announce': ann[name]} if ann.get(name) else rows
         if doc.get('nodes') is not None:
-            els.append(doc['nodes'] if doc['nodes'] == 'err' else [[self.val(x) for x in row] for row in doc['nodes']])
+            els.append(lst('nodes'))
             if doc.get('edges') is not None:
-                els.append(doc['edges'] if doc['edges'] == 'err' else [[self.val(x) for x in row] for row in doc['edges']])
+                els.append(lst('edges'))
         seq = Agg('StubSeq', [els])
         return self.ex.call(f"<{self.GRAPH}<K, N, E> as Deserialize<'de>>::deserialize::<D>", [seq])
 
